@@ -137,8 +137,15 @@ func (c *gctx) exactOpt(f Field) Opt {
 	case f.Name != "":
 		return Opt{Kind: "named", Name: c.casing(f.Name), Vals: []*Val{v}}
 	case f.Sub != "":
+		if c.r.chance(25) {
+			// documented as equivalent to TypedSubtype
+			return Opt{Kind: "namedsub", Name: "", Sub: f.Sub, Vals: []*Val{v}}
+		}
 		return Opt{Kind: "typedsub", Sub: f.Sub, Vals: []*Val{v}}
 	default:
+		if c.r.chance(15) {
+			return Opt{Kind: "named", Name: "", Vals: []*Val{v}} // documented as equivalent to Typed
+		}
 		return Opt{Kind: "typed", Vals: []*Val{v}}
 	}
 }
@@ -186,6 +193,25 @@ func (c *gctx) derive(f Field, depth int, convs *[]int) []Opt {
 	// a converter producing f from 0..2 inputs
 	nin := []int{0, 1, 1, 1, 1, 2, 2, 3}[c.r.intn(8)]
 	in := c.fields(FStruct, nin)
+	shared := map[int]bool{}
+	if len(*convs) > 0 && c.r.chance(35) {
+		// one input is something an earlier converter of this scenario already
+		// produces: that converter is then needed on several paths
+		d := c.sc.Funcs[(*convs)[c.r.intn(len(*convs))]]
+		if len(d.Out) > 0 {
+			g := d.Out[c.r.intn(len(d.Out))]
+			dup := false
+			for _, x := range in {
+				if (x.Name != "" && x.Name == g.Name) || (x.Name == "" && g.Name == "" && x.Ty == g.Ty) {
+					dup = true
+				}
+			}
+			if !dup && !(g.Name == f.Name && g.Ty == f.Ty && g.Sub == f.Sub) {
+				in = append(in, g)
+				shared[len(in)-1] = true
+			}
+		}
+	}
 	out := []Field{f}
 	if c.r.chance(12) && !c.noSub {
 		// a second result of the same type (or name) that differs only by its subtype
@@ -211,7 +237,10 @@ func (c *gctx) derive(f Field, depth int, convs *[]int) []Opt {
 	fi := c.addFunc(in, out, c.formFor(in), c.formFor(out))
 	*convs = append(*convs, fi)
 	var opts []Opt
-	for _, g := range in {
+	for i, g := range in {
+		if shared[i] {
+			continue // already derivable through the earlier converter
+		}
 		opts = append(opts, c.derive(g, depth-1, convs)...)
 	}
 	return opts
@@ -262,7 +291,21 @@ func genCallScenario(c *gctx, class int) {
 	for _, f := range tin {
 		switch {
 		case class == 1: // exact matches for everything (C03)
-			opts = append(opts, c.exactOpt(f))
+			o := c.exactOpt(f)
+			if f.Name != "" && r.chance(12) && len(o.Vals) == 1 && o.Vals[0] != nil {
+				o.Vals[0].Serial = 0 // the zero value of the type is a value like any other
+			}
+			opts = append(opts, o)
+			if f.Name != "" && !c.noSub && r.chance(20) {
+				// a same-named input with a subtype and a converter from it: a tempting detour
+				if _, isIface := carrier[f.Ty]; !isIface {
+					src := Field{Name: f.Name, Ty: c.cty(), Sub: "s"}
+					if src.Ty != f.Ty {
+						opts = append(opts, c.exactOpt(src))
+						convs = append(convs, c.addFunc([]Field{{Name: f.Name, Ty: src.Ty}}, []Field{{Name: f.Name, Ty: f.Ty, Sub: f.Sub}}, FStruct, FStruct))
+					}
+				}
+			}
 		case r.chance(12): // hopeless / left to chance
 		default:
 			opts = append(opts, c.derive(f, 1+r.intn(3), &convs)...)
@@ -273,6 +316,9 @@ func genCallScenario(c *gctx, class int) {
 	for i := 0; i < nd; i++ {
 		in := c.fields(FStruct, []int{0, 1, 1, 2}[r.intn(4)])
 		out := c.fields(FStruct, 1+r.intn(2))
+		if r.chance(15) {
+			out = nil // a converter that returns nothing (or only an error)
+		}
 		convs = append(convs, c.addFunc(in, out, c.formFor(in), c.formFor(out)))
 	}
 	if r.chance(25) && len(convs) > 0 {
@@ -775,6 +821,49 @@ func min(a, b int) int {
 	return b
 }
 
+// family: a named parameter satisfied by the same-named subtyped input, plus
+// further parameters converted from it through a type-only converter; several
+// tapes per scenario (matching-name discounts must not leak between plans)
+func genNameSubFamily(c *gctx) {
+	r := c.r
+	n := nameAlphabet[r.intn(len(nameAlphabet))]
+	T := c.cty()
+	U := c.cty()
+	for U == T {
+		U = c.cty()
+	}
+	tin := []Field{{Name: n, Ty: T}, {Ty: U}}
+	if r.chance(40) {
+		m := nameAlphabet[(r.intn(3)+1+indexOf(nameAlphabet, n))%len(nameAlphabet)]
+		tin = append(tin, Field{Name: m, Ty: U})
+	}
+	if r.chance(50) {
+		tin[0], tin[1] = tin[1], tin[0]
+	}
+	ti := c.addFunc(tin, c.fields(FStruct, r.intn(2)), FStruct, FStruct)
+	c.sc.Funcs[ti].Once, c.sc.Funcs[ti].Err = false, false
+	conv := c.addFunc([]Field{{Ty: T}}, []Field{{Ty: U}}, FPos, FPos)
+	c.sc.Funcs[conv].Once, c.sc.Funcs[conv].Err = false, false
+	opts := []Opt{{Kind: "namedsub", Name: n, Sub: "s", Vals: []*Val{c.val(T)}}}
+	if r.chance(50) {
+		opts = append(opts, Opt{Kind: "named", Name: nameAlphabet[(indexOf(nameAlphabet, n)+2)%len(nameAlphabet)], Vals: []*Val{c.val(T)}})
+	}
+	opts = append(opts, c.convOpts([]int{conv})...)
+	shuffleOpts(r, opts)
+	for i := 0; i < 6; i++ {
+		c.sc.Ops = append(c.sc.Ops, Op{Kind: "call", Target: ti, Opts: opts})
+	}
+}
+
+func indexOf(xs []string, x string) int {
+	for i, y := range xs {
+		if y == x {
+			return i
+		}
+	}
+	return 0
+}
+
 // C07 families
 func genC07(c *gctx, f2 bool) {
 	r := c.r
@@ -847,6 +936,7 @@ func genC07(c *gctx, f2 bool) {
 
 func init() {
 	startWatchdog(&wdIdx, &wdLast)
+	register(resolverStream("namesub", genNameSubFamily))
 	register(resolverStream("c07f1", func(c *gctx) { genC07(c, false) }))
 	register(resolverStream("c07f2", func(c *gctx) { genC07(c, true) }))
 	// C09 twin: the same history without the Redefine operations
